@@ -84,6 +84,9 @@ NamedBids(req) == IF req.kind \in BidKinds THEN {req.id} ELSE IF IsMatch(req) TH
 
 If(c, name) == IF c THEN {} ELSE {name}      \* the clause `name` holds iff c
 
+\* the contract's base denomination (a seeded store without a configuration: what the ask itself records)
+BaseOf(S, a) == IF S.cfg.set THEN S.cfg.base ELSE a.convd
+
 -----------------------------------------------------------------------------
 (* C01  Escrow solvency *)
 C01(pre, env, req, resp, post) ==
@@ -198,7 +201,7 @@ C04(pre, env, req, resp, post) ==
         c == IF PartialGiven(req) THEN req.size ELSE a.size
         valid == c >= 1 /\ pre.cfg.inc > 0 /\ c % pre.cfg.inc = 0 /\ c <= a.size
         xs ==    Xfer(TRUE, Contract, a.owner, a.base, c)
-              \o Xfer(a.class = "ready", Contract, a.approver, pre.cfg.base, c)
+              \o Xfer(a.class = "ready", Contract, a.approver, BaseOf(pre, a), c)
         left == a.size - c
     IN IF resp.ok THEN
              If(DeltasAre(req, resp, xs), "C04.deltas")
@@ -260,7 +263,7 @@ C06(pre, env, req, resp, post) ==
         entitled == IF req.kind = "cancel_ask" THEN req.sender = a.owner
                     ELSE req.sender \in Range(pre.cfg.executors)
         xs ==    Xfer(TRUE, Contract, a.owner, a.base, a.size)
-              \o Xfer(a.class = "ready", Contract, a.approver, pre.cfg.base, a.size)
+              \o Xfer(a.class = "ready", Contract, a.approver, BaseOf(pre, a), a.size)
         name == IF req.kind = "cancel_ask" THEN "C06.owner_cancel" ELSE "C06.executor_expire"
     IN If(entitled => (resp.ok /\ Executable(env, resp) /\ DeltasAre(req, resp, xs) /\ req.id \notin DOMAIN post.asks), name)
   ELSE IF req.kind \in {"cancel_bid", "expire_bid"} /\ IdParses(req.id) /\ req.id \in DOMAIN pre.bids
